@@ -138,6 +138,9 @@ type Exec struct {
 	qFacts       [][]Term
 	psums     map[string]string
 	psumUnfolded map[string]bool
+	inlineDepth  int
+	inlineStack  []*ssa.Function
+	inlined      map[string]bool
 }
 
 func (x *Exec) fresh(prefix string) string {
@@ -534,7 +537,7 @@ func (x *Exec) setVal(v ssa.Value, r Val) {
 	if r.T != "" && r.A == nil && r.Tu == nil {
 		srt := x.X.sortOf(v.Type())
 		if !isSimpleTerm(r.T) {
-			r.T = x.define(x.fn.Name()+"_"+v.Name(), srt, r.T)
+			r.T = x.define(x.valName(v), srt, r.T)
 		}
 	}
 	x.vals[v] = r
